@@ -4,16 +4,23 @@ C11 — Weighted address selection is bounded, sound and proportional.
 Property theorems only; helper lemmas are in `Proofs/Wrs.lean` (order part) and `Proofs/WrsEs.lean`
 (the integral). The model is `Model/Wrs.lean`, a transcription of `db/wrs.go`.
 
-Keys are elements of an ARBITRARY linear order `κ` with a least element `zero`; no floats occur in
-any statement. What connects this to the float keys of the Go code is (a) the code only compares
-keys (`<`, `>`, `> 0.0`), (b) non-NaN floats are linearly ordered with `0.0` least among the keys
-produced (all keys are `≥ 0`), (c) the correspondence run, which executes the same model with
-`Float` keys against the real code.
+Keys are elements of an ARBITRARY linear order `κ`; no floats occur in any statement and NO
+statement has a hypothesis about the keys: whatever `math.Pow` returns for a draw, the count and the
+weight-0 exclusion hold. What connects this to the float keys of the Go code is (a) the code only
+compares keys (`<`, `>`), (b) non-NaN floats are linearly ordered, (c) the correspondence run,
+which executes the same model with `Float` keys against the real code.
 
 `m : Int` is `MaxAnswers` (a Go `int`; nothing is ever kept for `m ≤ 0`), `m.toNat` the bound it
-imposes. `runFam m cands` is one family's slice after `Add` has seen `cands` in this order.
-`emit zero` is the final filter `Key > 0.0` of `Wrs.record` (the preceding `Shuffle` permutes the
-result and is not modelled: all statements are about the multiset of served records).
+imposes. `runFam m cands` is one family's slice after `Add` has sampled the positive-weight
+candidates `cands` in this order; `run m cands` is the whole `Wrs` value after the callers' loop over
+candidates of any type and weight. `ARecord`/`AAAARecord` serve every item of the slice (the
+preceding `Shuffle` permutes the result and is not modelled: all statements are about the multiset
+of served records).
+
+Since commit 6ed8b65 of /repo (`fix: weighted selection never serves weight 0 and never drops a
+positive weight`) a weight-0 record is counted but not sampled and every sampled item is served;
+before it, weight 0 was excluded only through its key `Pow(u, +Inf)` and the filter `Key > 0.0`,
+and `count_full` was false at the draws `u = 0` and `u = 2^32-1` (see its docstring).
 -/
 import DnsVerif.Proofs.Wrs
 import DnsVerif.Proofs.WrsEs
@@ -56,205 +63,190 @@ theorem wrs_single_first_max (cands : List (Item κ α)) (hne : cands ≠ []) :
 
 /-! ## wrs_sound -/
 
-/-- The served records are a sub-multiset of the candidates: every served item is one of the added
-candidates and no candidate is served twice. -/
-theorem wrs_sound (zero : κ) (m : Int) (cands : List (Item κ α)) :
-    ∃ rest : List (Item κ α), (emit zero (runFam m cands) ++ rest).Perm cands := by
+/-- One family's slice is a sub-multiset of the sampled candidates: every kept (= served) item is
+one of the added candidates and no candidate is served twice. -/
+theorem wrs_sound (m : Int) (cands : List (Item κ α)) :
+    ∃ rest : List (Item κ α), (runFam m cands ++ rest).Perm cands := by
   obtain ⟨dropped, hp, _, _⟩ := runFam_inv m cands
-  refine ⟨(runFam m cands).filter (fun it => !decide (zero < it.key)) ++ dropped, ?_⟩
-  rw [← List.append_assoc]
-  exact ((List.filter_append_perm _ _).append_right dropped).trans hp
+  exact ⟨dropped, hp⟩
 
-theorem wrs_sound_mem (zero : κ) (m : Int) (cands : List (Item κ α)) :
-    ∀ it ∈ emit zero (runFam m cands), it ∈ cands := by
-  obtain ⟨rest, hp⟩ := wrs_sound zero m cands
+theorem wrs_sound_mem (m : Int) (cands : List (Item κ α)) :
+    ∀ it ∈ runFam m cands, it ∈ cands := by
+  obtain ⟨rest, hp⟩ := wrs_sound m cands
   intro it hit
   exact hp.mem_iff.1 (List.mem_append_left _ hit)
 
-/-! ## wrs_count -/
-
-/-- If, for the candidates at hand, the key is `zero` exactly for weight 0 (true of the Go key
-`u^(1/w)` for every draw `0 < u < 2^32-1`; see `count_full_fails` for the two excluded draws),
-the answer holds exactly `min(max, #positive-weight candidates)` records, none of weight 0. -/
-theorem wrs_count (zero : κ) (hz : ∀ k : κ, zero ≤ k) (weight : α → Nat) (m : Int)
-    (cands : List (Item κ α)) (hw : ∀ c ∈ cands, c.key = zero ↔ weight c.val = 0) :
-    (emit zero (runFam m cands)).length
-        = min m.toNat (cands.filter (fun c => decide (weight c.val ≠ 0))).length ∧
-    ∀ it ∈ emit zero (runFam m cands), weight it.val ≠ 0 := by
-  have hpos : ∀ c ∈ cands, (zero < c.key ↔ weight c.val ≠ 0) := by
-    intro c hc
-    constructor
-    · intro h h0
-      exact absurd ((hw c hc).2 h0) (ne_of_lt h).symm
-    · intro h
-      exact lt_of_le_of_ne (hz _) (fun e => h ((hw c hc).1 e.symm))
-  have hcongr : emit zero cands = cands.filter (fun c => decide (weight c.val ≠ 0)) := by
-    unfold emit
-    apply List.filter_congr
-    intro c hc
-    exact decide_eq_decide.2 (hpos c hc)
-  constructor
-  · rw [emit_length (runFam_inv m cands) zero, hcongr]
-  · intro it hit
-    have hmem := wrs_sound_mem zero m cands it hit
-    have : zero < it.key := of_decide_eq_true (List.mem_filter.1 hit).2
-    exact (hpos it hmem).1 this
-
 /-- at most `max` records whatever the keys are -/
-theorem wrs_bounded (zero : κ) (m : Int) (cands : List (Item κ α)) :
-    (emit zero (runFam m cands)).length ≤ m.toNat := by
-  rw [emit_length (runFam_inv m cands) zero]
+theorem wrs_bounded (m : Int) (cands : List (Item κ α)) :
+    (runFam m cands).length ≤ m.toNat := by
+  rw [(runFam_inv m cands).choose_spec.2.1]
   exact Nat.min_le_left _ _
 
-/-! ## zero_weight_only -/
+/-! ## wrs_count -/
 
-/-- Only weight-0 candidates: nothing is served, although candidates were seen. -/
-theorem zero_weight_only (zero : κ) (hz : ∀ k : κ, zero ≤ k) (weight : α → Nat) (m : Int)
-    (cands : List (Item κ α)) (hw : ∀ c ∈ cands, c.key = zero ↔ weight c.val = 0)
-    (h0 : ∀ c ∈ cands, weight c.val = 0) :
-    emit zero (runFam m cands) = [] := by
-  have := (wrs_count zero hz weight m cands hw).1
-  have hnil : cands.filter (fun c => decide (weight c.val ≠ 0)) = [] := by
-    rw [List.filter_eq_nil_iff]
-    intro c hc
-    simp [h0 c hc]
-  rw [hnil] at this
-  exact List.eq_nil_of_length_eq_zero (by simpa using this)
+/-- the candidates of record type `t` with a positive weight, in arrival order -/
+def positives (t : Nat) (cands : List (Cand κ α)) : List (Cand κ α) :=
+  (seenOf t cands).filter (fun c => decide (c.weight ≠ 0))
+
+omit [LinearOrder κ] in
+theorem mem_positives {t : Nat} {cands : List (Cand κ α)} {c : Cand κ α} :
+    c ∈ positives t cands ↔ c ∈ cands ∧ c.qtype = t ∧ c.weight ≠ 0 := by
+  simp only [positives, seenOf, List.mem_filter, decide_eq_true_eq]
+  tauto
+
+/-- what one family serves, for ANY keys: exactly `min(max, #positive-weight candidates)` records,
+each of them the item of a positive-weight candidate of that family, no candidate twice -/
+theorem fam_count (t : Nat) (m : Int) (cands : List (Cand κ α)) :
+    (runFam m (candsOf t cands)).length = min m.toNat (positives t cands).length ∧
+    (∀ it ∈ runFam m (candsOf t cands), ∃ c ∈ cands, c.qtype = t ∧ c.weight ≠ 0 ∧ c.item = it) ∧
+    ∃ rest, (runFam m (candsOf t cands) ++ rest).Perm ((positives t cands).map (·.item)) := by
+  refine ⟨?_, ?_, wrs_sound m _⟩
+  · rw [(runFam_inv m _).choose_spec.2.1]
+    simp [candsOf, positives]
+  · intro it hit
+    have hmem := wrs_sound_mem m _ it hit
+    obtain ⟨c, hc, rfl⟩ := List.mem_map.1 hmem
+    obtain ⟨h1, h2, h3⟩ := mem_positives.1 hc
+    exact ⟨c, h1, h2, h3, rfl⟩
+
+/-- FULL STRENGTH, no hypothesis on keys, draws or weights: after the callers' loop over candidates
+of any type and weight (in any order), `ARecord` holds exactly `min(max, #A candidates of positive
+weight)` records, each the item of an A candidate of positive weight; the same for `AAAARecord`. -/
+theorem wrs_count (m : Int) (cands : List (Cand κ α)) :
+    (((run m cands).aRecord).length = min m.toNat (positives typeA cands).length ∧
+     ∀ it ∈ (run m cands).aRecord, ∃ c ∈ cands, c.qtype = typeA ∧ c.weight ≠ 0 ∧ c.item = it) ∧
+    (((run m cands).aaaaRecord).length = min m.toNat (positives typeAAAA cands).length ∧
+     ∀ it ∈ (run m cands).aaaaRecord, ∃ c ∈ cands, c.qtype = typeAAAA ∧ c.weight ≠ 0 ∧ c.item = it) := by
+  obtain ⟨h4, h6, _, _⟩ := run_spec m cands
+  constructor
+  · show (run m cands).v4.length = _ ∧ ∀ it ∈ (run m cands).v4, _
+    rw [h4]
+    exact ⟨(fam_count typeA m cands).1, (fam_count typeA m cands).2.1⟩
+  · show (run m cands).v6.length = _ ∧ ∀ it ∈ (run m cands).v6, _
+    rw [h6]
+    exact ⟨(fam_count typeAAAA m cands).1, (fam_count typeAAAA m cands).2.1⟩
+
+/-- "An address with weight 0 is never served": if the weight is a function of the payload (in the
+Go code the payload is the row, which contains the weight), no served payload has weight 0. -/
+theorem weight0_never_served (weight : α → Nat) (m : Int) (cands : List (Cand κ α))
+    (hw : ∀ c ∈ cands, c.weight = weight c.item.val) :
+    (∀ it ∈ (run m cands).aRecord, weight it.val ≠ 0) ∧
+    (∀ it ∈ (run m cands).aaaaRecord, weight it.val ≠ 0) := by
+  obtain ⟨⟨_, hA⟩, ⟨_, hB⟩⟩ := wrs_count m cands
+  constructor
+  · intro it hit
+    obtain ⟨c, hc, _, h0, rfl⟩ := hA it hit
+    rw [← hw c hc]; exact h0
+  · intro it hit
+    obtain ⟨c, hc, _, h0, rfl⟩ := hB it hit
+    rw [← hw c hc]; exact h0
 
 /-! ## the `Wrs` value as the callers use it (both families, counters, `WeightedAnswer`) -/
 
 /-- `FindAnswer` / `AdditionalSectionForRecords`: after the loop over the rows, `ARecord` serves
 from the A candidates and `AAAARecord` from the AAAA candidates, independently, every other type
-being rejected by `Add` without effect; per family the count is `min(max, #positive weight)`, no
-weight-0 record is served, the served records are a sub-multiset of that family's candidates. -/
-theorem answer_spec (zero : κ) (hz : ∀ k : κ, zero ≤ k) (weight : α → Nat) (m : Int)
-    (cands : List (Cand κ α)) (hw : ∀ c ∈ cands, c.item.key = zero ↔ weight c.item.val = 0) :
-    let A := candsOf typeA cands
-    let B := candsOf typeAAAA cands
+being rejected by `Add` without effect; per family the count is `min(max, #positive weight)`, the
+served records are a sub-multiset of that family's positive-weight candidates (so no weight-0
+record is served and none twice). No hypothesis on the keys. -/
+theorem answer_spec (m : Int) (cands : List (Cand κ α)) :
     let w := run m cands
-    ((w.aRecord zero).length = min m.toNat (A.filter (fun c => decide (weight c.val ≠ 0))).length ∧
-     (∀ it ∈ w.aRecord zero, weight it.val ≠ 0) ∧
-     (∃ rest, (w.aRecord zero ++ rest).Perm A)) ∧
-    ((w.aaaaRecord zero).length = min m.toNat (B.filter (fun c => decide (weight c.val ≠ 0))).length ∧
-     (∀ it ∈ w.aaaaRecord zero, weight it.val ≠ 0) ∧
-     (∃ rest, (w.aaaaRecord zero ++ rest).Perm B)) := by
-  intro A B w
+    ((w.aRecord).length = min m.toNat (positives typeA cands).length ∧
+     (∃ rest, (w.aRecord ++ rest).Perm ((positives typeA cands).map (·.item)))) ∧
+    ((w.aaaaRecord).length = min m.toNat (positives typeAAAA cands).length ∧
+     (∃ rest, (w.aaaaRecord ++ rest).Perm ((positives typeAAAA cands).map (·.item)))) := by
+  intro w
   obtain ⟨h4, h6, _, _⟩ := run_spec m cands
-  have hwA : ∀ t, ∀ c ∈ candsOf t cands, c.key = zero ↔ weight c.val = 0 := by
-    intro t c hc
-    obtain ⟨c', hc', rfl⟩ := List.mem_map.1 hc
-    exact hw c' (List.mem_filter.1 hc').1
   constructor
-  · show (emit zero w.v4).length = _ ∧ (∀ it ∈ emit zero w.v4, _) ∧ ∃ rest, (emit zero w.v4 ++ rest).Perm A
-    rw [show w.v4 = runFam m A from h4]
-    exact ⟨(wrs_count zero hz weight m A (hwA _)).1, (wrs_count zero hz weight m A (hwA _)).2,
-      wrs_sound zero m A⟩
-  · show (emit zero w.v6).length = _ ∧ (∀ it ∈ emit zero w.v6, _) ∧ ∃ rest, (emit zero w.v6 ++ rest).Perm B
-    rw [show w.v6 = runFam m B from h6]
-    exact ⟨(wrs_count zero hz weight m B (hwA _)).1, (wrs_count zero hz weight m B (hwA _)).2,
-      wrs_sound zero m B⟩
+  · show w.v4.length = _ ∧ ∃ rest, (w.v4 ++ rest).Perm _
+    rw [show w.v4 = runFam m (candsOf typeA cands) from h4]
+    exact ⟨(fam_count typeA m cands).1, (fam_count typeA m cands).2.2⟩
+  · show w.v6.length = _ ∧ ∃ rest, (w.v6 ++ rest).Perm _
+    rw [show w.v6 = runFam m (candsOf typeAAAA cands) from h6]
+    exact ⟨(fam_count typeAAAA m cands).1, (fam_count typeAAAA m cands).2.2⟩
+
+/-! ## zero_weight_only -/
+
+/-- Only weight-0 candidates: nothing is served, whatever was drawn. -/
+theorem zero_weight_only (m : Int) (cands : List (Cand κ α)) (h0 : ∀ c ∈ cands, c.weight = 0) :
+    (run m cands).aRecord = [] ∧ (run m cands).aaaaRecord = [] := by
+  obtain ⟨⟨hA, _⟩, ⟨hB, _⟩⟩ := wrs_count m cands
+  have hnil : ∀ t, positives t cands = [] := by
+    intro t
+    rw [positives, List.filter_eq_nil_iff]
+    intro c hc
+    have := h0 c (List.mem_filter.1 hc).1
+    simp [this]
+  rw [hnil] at hA hB
+  exact ⟨List.eq_nil_of_length_eq_zero (by simpa using hA),
+    List.eq_nil_of_length_eq_zero (by simpa using hB)⟩
 
 /-- `zero_weight_only` for the caller: if every address candidate has weight 0 the answer section
 gets no address, yet the counter shows that candidates were seen — in `FindAnswer` the flag
 `recordFound` is set before `Add` for every row that parses, so the reply is NOERROR/NODATA
 (name exists), not NXDOMAIN. -/
-theorem zero_weight_name_exists (zero : κ) (hz : ∀ k : κ, zero ≤ k) (weight : α → Nat) (m : Int)
-    (cands : List (Cand κ α)) (hw : ∀ c ∈ cands, c.item.key = zero ↔ weight c.item.val = 0)
-    (h0 : ∀ c ∈ cands, weight c.item.val = 0)
-    (hn : 0 < (candsOf typeA cands).length) (hlt : (candsOf typeA cands).length < 4294967296) :
-    (run m cands).aRecord zero = [] ∧ (run m cands).aaaaRecord zero = [] ∧
+theorem zero_weight_name_exists (m : Int) (cands : List (Cand κ α))
+    (h0 : ∀ c ∈ cands, c.weight = 0)
+    (hn : 0 < (seenOf typeA cands).length) (hlt : (seenOf typeA cands).length < 4294967296) :
+    (run m cands).aRecord = [] ∧ (run m cands).aaaaRecord = [] ∧
     0 < (run m cands).v4Count := by
-  obtain ⟨h4, h6, c4, _⟩ := run_spec m cands
-  have hwA : ∀ t, ∀ c ∈ candsOf t cands, c.key = zero ↔ weight c.val = 0 := by
-    intro t c hc
-    obtain ⟨c', hc', rfl⟩ := List.mem_map.1 hc
-    exact hw c' (List.mem_filter.1 hc').1
-  have h0A : ∀ t, ∀ c ∈ candsOf t cands, weight c.val = 0 := by
-    intro t c hc
-    obtain ⟨c', hc', rfl⟩ := List.mem_map.1 hc
-    exact h0 c' (List.mem_filter.1 hc').1
-  refine ⟨?_, ?_, ?_⟩
-  · show emit zero (run m cands).v4 = []
-    rw [h4]; exact zero_weight_only zero hz weight m _ (hwA _) (h0A _)
-  · show emit zero (run m cands).v6 = []
-    rw [h6]; exact zero_weight_only zero hz weight m _ (hwA _) (h0A _)
-  · rw [c4, Nat.mod_eq_of_lt hlt]; exact hn
+  obtain ⟨_, _, c4, _⟩ := run_spec m cands
+  obtain ⟨hA, hB⟩ := zero_weight_only m cands h0
+  refine ⟨hA, hB, ?_⟩
+  rw [c4, Nat.mod_eq_of_lt hlt]; exact hn
 
 /-- `WeightedAnswer` is true iff some family saw more than one candidate (of any weight). -/
 theorem weighted_flag (m : Int) (cands : List (Cand κ α))
-    (h4 : (candsOf typeA cands).length < 4294967296)
-    (h6 : (candsOf typeAAAA cands).length < 4294967296) :
+    (h4 : (seenOf typeA cands).length < 4294967296)
+    (h6 : (seenOf typeAAAA cands).length < 4294967296) :
     (run m cands).weightedAnswer = true ↔
-      1 < (candsOf typeA cands).length ∨ 1 < (candsOf typeAAAA cands).length := by
+      1 < (seenOf typeA cands).length ∨ 1 < (seenOf typeAAAA cands).length := by
   obtain ⟨_, _, c4, c6⟩ := run_spec m cands
   unfold State.weightedAnswer
   rw [c4, c6, Nat.mod_eq_of_lt h4, Nat.mod_eq_of_lt h6]
   simp
 
 /-- Additional section (`Wrs{MaxAnswers: 1}` per NS/MX target): at most one address per family. -/
-theorem additional_max_one (zero : κ) (cands : List (Cand κ α)) :
-    ((run 1 cands).aRecord zero).length ≤ 1 ∧ ((run 1 cands).aaaaRecord zero).length ≤ 1 := by
+theorem additional_max_one (cands : List (Cand κ α)) :
+    ((run 1 cands).aRecord).length ≤ 1 ∧ ((run 1 cands).aaaaRecord).length ≤ 1 := by
   obtain ⟨h4, h6, _, _⟩ := run_spec (1 : Int) cands
   constructor
-  · show (emit zero (run 1 cands).v4).length ≤ 1
-    rw [h4]; exact wrs_bounded zero 1 _
-  · show (emit zero (run 1 cands).v6).length ≤ 1
-    rw [h6]; exact wrs_bounded zero 1 _
+  · show (run 1 cands).v4.length ≤ 1
+    rw [h4]; exact wrs_bounded 1 _
+  · show (run 1 cands).v6.length ≤ 1
+    rw [h6]; exact wrs_bounded 1 _
 
-/-! ## the two extreme draws: the full-strength count statement fails for the Go key function -/
+/-! ## every weight, every draw, every key function -/
 
-/-- candidates given as (weight, 32-bit draw), keys computed by `key weight draw` -/
-def mkCands (key : Nat → Nat → κ) (ws : List (Nat × Nat)) : List (Item κ (Nat × Nat)) :=
-  ws.map fun p => ⟨key p.1 p.2, p⟩
+/-- A candidates given as (weight, 32-bit draw), keys computed by `key weight draw` -/
+def mkCands (key : Nat → Nat → κ) (ws : List (Nat × Nat)) : List (Cand κ (Nat × Nat)) :=
+  ws.map fun p => ⟨typeA, p.1, ⟨key p.1 p.2, p⟩⟩
 
-/-- full strength: for EVERY weight and every 32-bit draw the count is `min(max, #positive)` and
-no weight-0 record is served -/
-def count_full (key : Nat → Nat → κ) (zero : κ) : Prop :=
-  ∀ (m : Int) (ws : List (Nat × Nat)), (∀ p ∈ ws, p.2 < 4294967296) →
-    (emit zero (runFam m (mkCands key ws))).length
+/-- Full strength: for EVERY key function (in particular whatever `math.Pow` returns at the extreme
+draws), every weight (0 and 2^32-1 included) and every draw (0 and 2^32-1 included) the count is
+`min(max, #positive)` and no weight-0 record is served.
+
+Before commit 6ed8b65 false for the Go key `Pow(u/(2^32-1), 1/w)`, which has `key w 0 = 0` for
+`w > 0` and `key 0 (2^32-1) = Pow(1, +Inf) = 1`:
+`wrs 1 5:0:4` served nothing (NODATA for a name that has an address);
+`wrs 1 0:4294967295:4` and `wrs 1 1000:4000000000:4;0:4294967295:4` served the weight-0 address.
+(Then proved as `count_full_fails`; `wrs_count` carried the hypothesis `key = zero ↔ weight = 0`.) -/
+theorem count_full (key : Nat → Nat → κ) (m : Int) (ws : List (Nat × Nat)) :
+    ((run m (mkCands key ws)).aRecord).length
         = min m.toNat (ws.filter (fun p => decide (p.1 ≠ 0))).length ∧
-    ∀ it ∈ emit zero (runFam m (mkCands key ws)), it.val.1 ≠ 0
-
-/-- What `math.Pow(float64(u)*float64(1.0/math.MaxUint32), 1.0/float64(w))` does at the extreme
-draws (IEEE special cases of `Pow`, and `fl(4294967295 · fl(1/4294967295)) = 1.0`); validated
-against the real code by the `wrsedge` correspondence cases:
-`Pow(0, 1/w) = 0` for `w > 0`;  `Pow(1, +Inf) = 1 > 0` for `w = 0`. -/
-structure PowEdge (key : Nat → Nat → κ) (zero : κ) : Prop where
-  draw0 : ∀ w, 0 < w → key w 0 = zero
-  drawMax : zero < key 0 4294967295
-
-/-- witness 1: a single candidate of weight 5 with draw 0 gets key 0 and is not served
-(`wrsedge 1 5:0:4` → empty answer, NODATA for a name that has an address) -/
-theorem count_full_fails (key : Nat → Nat → κ) (zero : κ) (h : PowEdge key zero) :
-    ¬ count_full key zero := by
-  intro hf
-  have := (hf 1 [(5, 0)] (by simp)).1
-  simp [mkCands, runFam, addFam, checkAndReplace, emit, h.draw0 5 (by decide)] at this
-
-/-- witness 2: a weight-0 candidate with draw 2^32-1 gets the largest possible key and IS served
-(`wrsedge 1 0:4294967295:4`) -/
-theorem weight0_served (key : Nat → Nat → κ) (zero : κ) (h : PowEdge key zero) :
-    ∃ it ∈ emit zero (runFam 1 (mkCands key [(0, 4294967295)])), it.val.1 = 0 := by
-  refine ⟨⟨key 0 4294967295, (0, 4294967295)⟩, ?_, rfl⟩
-  simp [mkCands, runFam, addFam, checkAndReplace, emit, h.drawMax]
-
-/-- the partial statement that does hold: away from the draws where the key function breaks
-`key = zero ↔ weight = 0` -/
-theorem count_partial (key : Nat → Nat → κ) (zero : κ) (hz : ∀ k : κ, zero ≤ k) (m : Int)
-    (ws : List (Nat × Nat)) (hk : ∀ p ∈ ws, key p.1 p.2 = zero ↔ p.1 = 0) :
-    (emit zero (runFam m (mkCands key ws))).length
-        = min m.toNat (ws.filter (fun p => decide (p.1 ≠ 0))).length ∧
-    ∀ it ∈ emit zero (runFam m (mkCands key ws)), it.val.1 ≠ 0 := by
-  have h := wrs_count zero hz (fun p : Nat × Nat => p.1) m (mkCands key ws) (by
-    intro c hc
-    obtain ⟨p, hp, rfl⟩ := List.mem_map.1 hc
-    exact hk p hp)
-  refine ⟨?_, h.2⟩
-  rw [h.1]
-  congr 1
-  unfold mkCands
-  rw [List.filter_map, List.length_map]
-  rfl
+    ∀ it ∈ (run m (mkCands key ws)).aRecord, it.val.1 ≠ 0 := by
+  obtain ⟨⟨hl, hm⟩, _⟩ := wrs_count m (mkCands key ws)
+  constructor
+  · rw [hl]
+    congr 1
+    simp only [positives, seenOf, mkCands, List.filter_map, List.length_map, List.filter_filter]
+    congr 1
+    apply List.filter_congr
+    intro p _
+    simp [Function.comp]
+  · intro it hit
+    obtain ⟨c, hc, _, h0, rfl⟩ := hm it hit
+    obtain ⟨p, _, rfl⟩ := List.mem_map.1 hc
+    exact h0
 
 /-! ## es_single_winner -/
 
@@ -269,17 +261,27 @@ theorem es_single_winner (a b : ℝ) (ha : 0 < a) (hb : 0 < b) :
 
 /-! ## non-vacuity -/
 
-/-- keys in `Nat` (zero least): 3 slots, 5 candidates, one of weight 0 -/
-example : (emit 0 (runFam 3 [⟨5, 'a'⟩, ⟨0, 'z'⟩, ⟨7, 'b'⟩, ⟨5, 'c'⟩, ⟨9, 'd'⟩])).map (·.val)
+/-- keys in `Nat`: 3 slots, 5 sampled candidates -/
+example : (runFam 3 [⟨5, 'a'⟩, ⟨0, 'z'⟩, ⟨7, 'b'⟩, ⟨5, 'c'⟩, ⟨9, 'd'⟩]).map (·.val)
     = ['d', 'c', 'b'] := by decide
-/-- the hypotheses of `wrs_count` are satisfiable with a non-trivial candidate list -/
-example : (emit 0 (runFam 2 [(⟨0, 0⟩ : Item Nat Nat), ⟨4, 4⟩, ⟨2, 2⟩, ⟨9, 9⟩])).length = 2 :=
-  (wrs_count (κ := Nat) 0 Nat.zero_le id 2 _ (by simp)).1
-/-- `PowEdge` is satisfiable (so `count_full_fails` is not vacuous) -/
-example : PowEdge (κ := Nat) (fun w u => if u = 0 then 0 else if u = 4294967295 then 2 else
-    if w = 0 then 0 else 1) 0 := ⟨by simp, by simp⟩
+/-- a non-trivial candidate list: one weight-0 A candidate (carrying the LARGEST key), three
+positive ones, an AAAA candidate and an unsupported type; 2 slots -/
+example : ((run (κ := Nat) (α := Nat) 2 [⟨typeA, 0, ⟨99, 0⟩⟩, ⟨typeA, 4, ⟨4, 1⟩⟩, ⟨typeA, 2, ⟨2, 2⟩⟩,
+    ⟨typeAAAA, 1, ⟨0, 3⟩⟩, ⟨16, 1, ⟨50, 4⟩⟩, ⟨typeA, 9, ⟨9, 5⟩⟩]).aRecord).map (·.val) = [1, 5] := by
+  decide
+/-- the old key function at the extreme draws (`key w 0 = 0` for `w > 0`, `key 0 (2^32-1)` maximal):
+the former witnesses now behave as the property demands -/
+def edgeKey (w u : Nat) : Nat :=
+  if u = 0 then 0 else if u = 4294967295 then 2 else if w = 0 then 0 else 1
+/-- `wrs 1 5:0:4`: the only address is served although its key is 0 -/
+example : ((run 1 (mkCands edgeKey [(5, 0)])).aRecord).map (·.val) = [(5, 0)] := by decide
+/-- `wrs 1 0:4294967295:4`: the weight-0 address is not served -/
+example : (run 1 (mkCands edgeKey [(0, 4294967295)])).aRecord = [] := by decide
+/-- `wrs 1 1000:4000000000:4;0:4294967295:4`: the positive-weight address wins -/
+example : ((run 1 (mkCands edgeKey [(1000, 4000000000), (0, 4294967295)])).aRecord).map (·.val)
+    = [(1000, 4000000000)] := by decide
 /-- only weight-0 candidates, two of them: empty answer, `WeightedAnswer` true, counter 2 -/
-example : let w := run (κ := Nat) (α := Nat) 1 [⟨typeA, ⟨0, 0⟩⟩, ⟨typeA, ⟨0, 0⟩⟩, ⟨16, ⟨3, 3⟩⟩]
-    (w.aRecord 0 = [] ∧ w.v4Count = 2 ∧ w.weightedAnswer = true) := by decide
+example : let w := run (κ := Nat) (α := Nat) 1 [⟨typeA, 0, ⟨7, 0⟩⟩, ⟨typeA, 0, ⟨8, 0⟩⟩, ⟨16, 1, ⟨3, 3⟩⟩]
+    (w.aRecord = [] ∧ w.v4Count = 2 ∧ w.weightedAnswer = true) := by decide
 
 end DnsVerif.Props.C11
